@@ -151,7 +151,7 @@ LIN_HELPER_SHAPES = {
     "_neg_one_div": "PIN",
 }
 
-# build_model of the linear mapper with the reading-direction statement replaced by <DIR>
+# build_model of the linear mapper with the reading-direction statement replaced by <DIR> (and the expansion block by <EXP>, below)
 _DIR_INVERSE = "subs = _map_substrates_to_labelmap(subs, label_map)"
 _DIR_DOCUMENTED = "subs = [subs[i] for i in label_map]"
 # build_model of the isotopomer mapper with the two statements that name the initially labelled variable
@@ -181,6 +181,21 @@ _REPL_POSITIONAL = (
     "        new_args.append(last.get(k, f'{k}__total' if k in label_variables else k))\n"
     "    model.add_reaction(name=new_rate_name, fn=function, stoichiometry=new_stoichiometry, args=new_args)"
 )
+# build_model of the linear mapper: how the {compound: coefficient} dicts of _unpack_stoichiometries become the lists of atom
+# positions, replaced by <EXP> in the pinned shape.  _EXP_DUPLICATED = the tree (a coefficient k gives k copies);
+# _EXP_KEYS_ONLY = the recognised regression shape seeded as C16-4 (iterating the dicts: every compound once)
+_EXP_DUPLICATED = (
+    "    subs = _stoichiometry_to_duplicate_list(subs)\n"
+    "    prods = _stoichiometry_to_duplicate_list(prods)\n"
+    "    subs = [j for i in subs for j in isotopomers[i]]\n"
+    "    prods = [j for i in prods for j in isotopomers[i]]\n"
+)
+_EXP_KEYS_ONLY = (
+    "    subs = [pos for name in subs for pos in isotopomers[name]]\n"
+    "    prods = [pos for name in prods for pos in isotopomers[name]]\n"
+)
+_EXP_CONTEXT_BEFORE = "    subs, prods = _unpack_stoichiometries(rxn.stoichiometry)\n"
+_EXP_CONTEXT_AFTER = "    subs, prods = _add_label_influx_or_efflux(subs, prods, label_map)\n"
 _HELPER_INVERSE = (
     "res = ['EXT'] * len(substrates)\n"
     "for substrate, pos in zip(substrates, labelmap, strict=True):\n"
@@ -198,7 +213,9 @@ def helper_hashes() -> dict[str, dict[str, str]]:
     cre = _body_src(_fn(iso, "_create_isotopomer_reactions"))
     out["iso"]["_create_isotopomer_reactions<REPL>"] = _h(cre.replace(_REPL_DICT, "<REPL>").replace(_REPL_POSITIONAL, "<REPL>"))
     bm = _body_src(_fn(lin, "build_model"))
-    out["lin"]["build_model<DIR>"] = _h(bm.replace(_DIR_INVERSE, "<DIR>").replace(_DIR_DOCUMENTED, "<DIR>"))
+    out["lin"]["build_model<EXP><DIR>"] = _h(
+        bm.replace(_DIR_INVERSE, "<DIR>").replace(_DIR_DOCUMENTED, "<DIR>").replace(_EXP_DUPLICATED, "<EXP>\n").replace(_EXP_KEYS_ONLY, "<EXP>\n")
+    )
     return out
 
 
@@ -223,7 +240,7 @@ PINNED = {
         "_relative_label_flux": "fca13087b0e12181",
         "_one_div": "ad7fc52c5e278a1f",
         "_neg_one_div": "ed480faf62f22764",
-        "build_model<DIR>": "76c977c68b2aa103",
+        "build_model<EXP><DIR>": "ca9b37f92557e3ba",
     },
 }
 
@@ -238,6 +255,7 @@ def extract_facts() -> dict[str, str]:
         "lin_dir": "DirUnknown",
         "lin_helpers": "false",
         "init_name": "InitUnknown",
+        "lin_expand": "ExpUnknown",
     }
     try:
         iso = ast.parse((common.REPO / "src/mxlpy/label_map.py").read_text())
@@ -287,6 +305,12 @@ def extract_facts() -> dict[str, str]:
         facts["lin_dir"] = "DirInverse"
     elif bm.count(_DIR_DOCUMENTED) == 1 and "_map_substrates_to_labelmap" not in bm:
         facts["lin_dir"] = "DirDocumented"
+    # expansion of the stoichiometry dicts in the linear mapper's build_model (exactly one of the two blocks, between the
+    # unpacking and the EXT padding; the duplicate-list helper itself is pinned in LIN_HELPER_SHAPES)
+    if bm.count(_EXP_CONTEXT_BEFORE + _EXP_DUPLICATED + _EXP_CONTEXT_AFTER) == 1 and bm.count("_stoichiometry_to_duplicate_list") == 2 and _EXP_KEYS_ONLY not in bm:
+        facts["lin_expand"] = "ExpDuplicated"
+    elif bm.count(_EXP_CONTEXT_BEFORE + _EXP_KEYS_ONLY + _EXP_CONTEXT_AFTER) == 1 and "_stoichiometry_to_duplicate_list" not in bm:
+        facts["lin_expand"] = "ExpKeysOnly"
     return facts
 
 
@@ -297,7 +321,7 @@ def gen() -> dict[str, str]:
         "   do not edit.  An unrecognised shape yields an *Unknown constructor / None / false, which breaks\n"
         "   C05_facts_pinned or C16_facts_pinned. *)\n"
         "From Label Require Import LModel Iso Linear.\n"
-        f"Definition gen_label_facts : label_facts :=\n  mkLabelFacts {f['iso_dir']} {f['ext_bit']} {f['short']} {f['repl']} {f['iso_helpers']} {f['lin_dir']} {f['lin_helpers']} {f['init_name']}.\n"
+        f"Definition gen_label_facts : label_facts :=\n  mkLabelFacts {f['iso_dir']} {f['ext_bit']} {f['short']} {f['repl']} {f['iso_helpers']} {f['lin_dir']} {f['lin_helpers']} {f['init_name']} {f['lin_expand']}.\n"
     )
     common.write_if_changed(common.area_dir(AREA) / "GenLabelFacts.v", text)
     return f
